@@ -243,7 +243,7 @@ func programSystems(r *vcore.Run) {
 		name string
 		mod  *big.Int
 	}{{"bn254", ecc.BN254.ScalarField()}, {"bls12-377", ecc.BLS12_377.ScalarField()}, {"bw6-761", ecc.BW6_761.ScalarField()}, {"tinyfield", tinyfield.Modulus()}}
-	n := r.Pick(900, 8000)
+	n := r.Pick(900, 3000)
 	vcore.Parallel(n, 12, func(i int) {
 		rng := r.Rand(fmt.Sprintf("prog/%d", i))
 		f := fields[i%len(fields)]
@@ -251,7 +251,7 @@ func programSystems(r *vcore.Run) {
 		// long programs: levels wider than 50 instructions happen with many independent instructions
 		nInstr := 4 + rng.IntN(40)
 		if i%4 == 0 {
-			nInstr = 20 + rng.IntN(r.Pick(120, 300))
+			nInstr = 20 + rng.IntN(r.Pick(120, 220))
 		}
 		prog := progs.Random(rng, nIn, nInstr, f.mod.BitLen())
 		for _, b := range []string{"r1cs", "scs"} {
